@@ -131,6 +131,7 @@ func Load(repo string, overlay map[string][]byte) (*Engine, error) {
 	if len(e.Funcs) < 500 {
 		return nil, fmt.Errorf("only %d fx-core functions (expected >= 500)", len(e.Funcs))
 	}
+	e.buildAliases()
 	return e, nil
 }
 
@@ -182,6 +183,20 @@ func (e *Engine) Fn(key string) *ssa.Function {
 
 // Method returns the method `name` on named type pkg.typ (value or pointer receiver).
 func (e *Engine) Method(pkgSuffix, typ, name string) *ssa.Function {
+	if f := e.method0(pkgSuffix, typ, name); f != nil {
+		return f
+	}
+	for cur, canon := range aliasName {
+		if canon == name {
+			if f := e.method0(pkgSuffix, typ, cur); f != nil {
+				return f
+			}
+		}
+	}
+	return nil
+}
+
+func (e *Engine) method0(pkgSuffix, typ, name string) *ssa.Function {
 	p := e.ByPath[ModPath+"/"+pkgSuffix]
 	if p == nil {
 		p = e.ByPath[pkgSuffix]
@@ -218,7 +233,17 @@ func (e *Engine) PkgFunc(pkgSuffix, name string) *ssa.Function {
 	if sp == nil {
 		return nil
 	}
-	return sp.Func(name)
+	if f := sp.Func(name); f != nil {
+		return f
+	}
+	for cur, canon := range aliasName {
+		if canon == name {
+			if f := sp.Func(cur); f != nil {
+				return f
+			}
+		}
+	}
+	return nil
 }
 
 // isFx reports whether fn is declared in fx-core.
@@ -273,7 +298,7 @@ func calleeName(c ssa.CallInstruction) string {
 func callName(c ssa.CallInstruction) string {
 	cc := c.Common()
 	if cc.IsInvoke() {
-		return cc.Method.Name()
+		return canonName(cc.Method.Name())
 	}
 	if f := cc.StaticCallee(); f != nil {
 		n := f.Name()
@@ -281,7 +306,7 @@ func callName(c ssa.CallInstruction) string {
 		if i := strings.Index(n, "["); i > 0 {
 			n = n[:i]
 		}
-		return n
+		return canonName(n)
 	}
 	if b, ok := cc.Value.(*ssa.Builtin); ok {
 		return b.Name()
@@ -407,3 +432,185 @@ func refCountDelta(fn *ssa.Function) int {
 var verifDirGlobal = "/verif"
 
 func (e *Engine) verifDirForKnown() string { return verifDirGlobal + "/known_findings.jsonl" }
+
+// ---------------------------------------------------------------------------------------------------------------------
+// role aliases: rules refer to a number of fx-core functions by the name they have today. When such a name no longer
+// exists anywhere in fx-core (the function was renamed), the function is re-identified by its shape and its new name
+// is treated as the old one, so that a rename alone never unresolves an anchor.
+// ---------------------------------------------------------------------------------------------------------------------
+
+var aliasName = map[string]string{} // current name -> canonical (historic) name
+
+func canonName(n string) string {
+	if c, ok := aliasName[n]; ok {
+		return c
+	}
+	return n
+}
+
+func resultIs(f *ssa.Function, i int, suffix string) bool {
+	r := f.Signature.Results()
+	return r.Len() > i && strings.HasSuffix(r.At(i).Type().String(), suffix)
+}
+
+func recvIs(f *ssa.Function, suffix string) bool {
+	return f.Signature.Recv() != nil && strings.HasSuffix(namedTypeName(f.Signature.Recv().Type()), suffix)
+}
+
+func loadsField(f *ssa.Function, field string) bool {
+	hit := false
+	allInstrs(f, func(i ssa.Instruction) {
+		if v, ok := i.(ssa.Value); ok {
+			if n, _, ok := fieldName(v); ok && n == field {
+				hit = true
+			}
+		}
+	})
+	return hit
+}
+
+func hasConstStringArg(f *ssa.Function, want string) bool {
+	hit := false
+	allCalls(f, func(c ssa.CallInstruction) {
+		for _, a := range c.Common().Args {
+			if s, ok := constString(a); ok && s == want {
+				hit = true
+			}
+		}
+	})
+	return hit
+}
+
+func nonCtxParamTypes(f *ssa.Function) []string {
+	var out []string
+	ps := f.Params
+	if f.Signature.Recv() != nil && len(ps) > 0 {
+		ps = ps[1:]
+	}
+	for _, p := range ps {
+		if isCtxType(p.Type()) {
+			continue
+		}
+		out = append(out, p.Type().String())
+	}
+	return out
+}
+
+func (e *Engine) buildAliases() {
+	aliasName = map[string]string{}
+	exists := map[string]bool{}
+	for _, f := range e.Funcs {
+		exists[f.Name()] = true
+	}
+	in := func(f *ssa.Function, pkg string) bool { return strings.HasSuffix(fnPkgPath(f), pkg) }
+	roles := []struct {
+		canon string
+		pred  func(*ssa.Function) bool
+	}{
+		{"GetPower", func(f *ssa.Function) bool { return recvIs(f, "x/crosschain/types.Oracle") && resultIs(f, 0, "math.Int") && len(nonCtxParamTypes(f)) == 0 && callsNamed(f, "Quo") }},
+		{"GetDelegateAddress", func(f *ssa.Function) bool {
+			t := nonCtxParamTypes(f)
+			return recvIs(f, "x/crosschain/types.Oracle") && resultIs(f, 0, "types.AccAddress") && len(t) == 1 && t[0] == "string"
+		}},
+		{"GetSlashAmount", func(f *ssa.Function) bool { return recvIs(f, "x/crosschain/types.Oracle") && callsNamed(f, "MinInt") }},
+		{"GetGravityID", func(f *ssa.Function) bool { return in(f, "x/crosschain/keeper") && resultIs(f, 0, "string") && len(nonCtxParamTypes(f)) == 0 && loadsField(f, "GravityId") }},
+		{"IsProposalOracle", func(f *ssa.Function) bool {
+			return in(f, "x/crosschain/keeper") && recvIs(f, "keeper.Keeper") && resultIs(f, 0, "bool") && len(nonCtxParamTypes(f)) == 1 && loadsField(f, "Oracles")
+		}},
+		{"GetAllOracles", func(f *ssa.Function) bool { return in(f, "x/crosschain/keeper") && resultIs(f, 0, "types.Oracles") && len(nonCtxParamTypes(f)) == 1 }},
+		{"GetCustomMsgVotingPeriod", func(f *ssa.Function) bool { return in(f, "x/gov/keeper") && resultIs(f, 0, "*time.Duration") && loadsField(f, "VotingPeriod") }},
+		{"GetCustomMsgQuorum", func(f *ssa.Function) bool { return in(f, "x/gov/keeper") && resultIs(f, 0, "string") && loadsField(f, "Quorum") && f.Signature.Recv() != nil }},
+		{"NewERC20Token", func(f *ssa.Function) bool { return in(f, "x/crosschain/types") && f.Signature.Recv() == nil && resultIs(f, 0, "types.ERC20Token") && len(f.Params) == 2 }},
+		{"ParseAddress", func(f *ssa.Function) bool {
+			return f.Signature.Recv() == nil && f.Signature.Results().Len() == 3 && resultIs(f, 0, "types.AccAddress") && resultIs(f, 1, "bool") && resultIs(f, 2, "error")
+		}},
+		{"ParseMethodArgs", func(f *ssa.Function) bool {
+			if !in(f, "x/evm/types") || f.Signature.Recv() != nil || !resultIs(f, 0, "error") {
+				return false
+			}
+			for _, p := range f.Params {
+				if strings.HasSuffix(p.Type().String(), "abi.Method") {
+					return callsNamed(f, "Validate")
+				}
+			}
+			return false
+		}},
+		{"checkProposalMsgs", func(f *ssa.Function) bool {
+			t := nonCtxParamTypes(f)
+			return in(f, "x/gov/keeper") && f.Signature.Recv() == nil && len(t) == 1 && strings.HasSuffix(t[0], "[]github.com/cosmos/cosmos-sdk/types.Msg") && resultIs(f, 0, "error")
+		}},
+		{"ValidateExternalAddr", func(f *ssa.Function) bool {
+			t := nonCtxParamTypes(f)
+			if !in(f, "x/crosschain/types") || f.Signature.Recv() != nil || len(t) != 2 || t[0] != "string" || t[1] != "string" || !resultIs(f, 0, "error") {
+				return false
+			}
+			hit := false
+			allInstrs(f, func(i ssa.Instruction) {
+				if u, ok := i.(*ssa.UnOp); ok {
+					if g, ok := u.X.(*ssa.Global); ok && strings.Contains(strings.ToLower(g.Name()), "router") {
+						hit = true
+					}
+				}
+			})
+			return hit
+		}},
+		{"GetERC20Contract", func(f *ssa.Function) bool { return recvIs(f, "x/erc20/types.TokenPair") && resultIs(f, 0, "common.Address") && len(nonCtxParamTypes(f)) == 0 }},
+		{"ApplyContract", func(f *ssa.Function) bool {
+			if !in(f, "x/evm/keeper") || !f.Signature.Variadic() {
+				return false
+			}
+			for _, p := range f.Params {
+				if strings.HasSuffix(p.Type().String(), "abi.ABI") {
+					return callsNamed(f, "Pack") && callsNamed(f, "CallEVMWithoutGas") && resultIs(f, 0, "MsgEthereumTxResponse")
+				}
+			}
+			return false
+		}},
+		{"bridgeCallTransferCoins", func(f *ssa.Function) bool {
+			if !in(f, "x/crosschain/keeper") || !callsNamed(f, "MintCoins") || !resultIs(f, 0, "types.Coins") {
+				return false
+			}
+			for _, p := range f.Params {
+				if strings.HasSuffix(p.Type().String(), "types.ERC20Token") {
+					return true
+				}
+			}
+			return false
+		}},
+		{"ERC20Mint", func(f *ssa.Function) bool { return in(f, "x/evm/keeper") && hasConstStringArg(f, "mint") }},
+		{"ERC20Burn", func(f *ssa.Function) bool { return in(f, "x/evm/keeper") && hasConstStringArg(f, "burn") }},
+		{"ERC20Transfer", func(f *ssa.Function) bool { return in(f, "x/evm/keeper") && hasConstStringArg(f, "transfer") && !hasConstStringArg(f, "transferFrom") }},
+	}
+	for _, ro := range roles {
+		if exists[ro.canon] {
+			continue
+		}
+		names := map[string]bool{}
+		for _, f := range e.Funcs {
+			if f.Parent() != nil || isAuxPkg(fnPkgPath(f)) {
+				continue
+			}
+			if ro.pred(f) {
+				names[f.Name()] = true
+			}
+		}
+		if len(names) == 1 {
+			for n := range names {
+				if !exists[ro.canon] {
+					aliasName[n] = ro.canon
+				}
+			}
+		}
+	}
+}
+
+// CanonFnKey is FnKey with the function's own name replaced by its canonical (historic) name when it was renamed:
+// constructs of recorded findings stay the same across a rename.
+func (e *Engine) CanonFnKey(fn *ssa.Function) string {
+	k := e.FnKey(fn)
+	n := fn.Name()
+	if c := canonName(n); c != n && strings.HasSuffix(k, "."+n) {
+		return strings.TrimSuffix(k, n) + c
+	}
+	return k
+}
